@@ -341,6 +341,10 @@ Proof.
   destruct (Hq eq_refl).
 Qed.
 
+(* ------------------------------------------------------------------------------------------------ *)
+(* 3. preservation: one lemma per clause of the invariant ([prepf]/[prepd] split a step into its    *)
+(*    enabled branches and add the facts the invariant gives about the objects the label touches)    *)
+(* ------------------------------------------------------------------------------------------------ *)
 Lemma p_new : forall c s l s', c_fixed c = true -> Inv c s -> step c s l = Some s' -> forall t, ntasks s' <= t -> tph s' t = TNew.
 Proof.
   prepf. all: intros x Hx. all: try (eapply i_new; eauto; fail).
@@ -886,6 +890,7 @@ Proof.
 Qed.
 
 
+(* the invariant holds in every reachable state of the current code *)
 Lemma Inv_step : forall c s l s', c_fixed c = true -> Inv c s -> step c s l = Some s' -> Inv c s'.
 Proof.
   intros c s l s' Hf HI H. constructor.
@@ -1080,4 +1085,617 @@ Proof.
   intros c s tr1 s1 tr2 s2 H1 H2. induction H2 as [s1|s1 tr2 s2 l s3 H2 IH Hc Hs].
   - now rewrite app_nil_r.
   - rewrite app_assoc. eapply steps_snoc; eauto.
+Qed.
+
+
+(* ------------------------------------------------------------------------------------------------ *)
+(* 5. where an event of the log came from                                                            *)
+(* ------------------------------------------------------------------------------------------------ *)
+
+Lemma cons_neq : forall A (e : A) l, l <> e :: l.
+Proof. intros A e l H. apply (f_equal (@length A)) in H. cbn in H. lia. Qed.
+
+Lemma step_log : forall c s l s', step c s l = Some s' -> log s' = log s \/ exists e, log s' = e :: log s.
+Proof.
+  intros c s l s' H. destruct l; step_inv H; subst s'; unfold_sets; proj_simpl; eauto.
+Qed.
+
+Lemma log_origin_gen : forall c s0 tr s, steps c s0 tr s -> log s0 = [] ->
+  forall l1 e l2, log s = l1 ++ e :: l2 ->
+  exists tr1 s1 lab s2 tr2,
+    steps c s0 tr1 s1 /\ client_ok s1 lab = true /\ step c s1 lab = Some s2 /\
+    log s1 = l2 /\ log s2 = e :: l2 /\ steps c s2 tr2 s /\ tr = tr1 ++ lab :: tr2.
+Proof.
+  intros c s0 tr s H. induction H as [s0|s0 tr s1 l s2 H IH Hc Hs]; intros H0 l1 e l2 Hl.
+  - rewrite H0 in Hl. destruct l1; discriminate.
+  - destruct (step_log _ _ _ _ Hs) as [Hlog|(e' & Hlog)].
+    + rewrite Hlog in Hl. destruct (IH H0 _ _ _ Hl) as (tr1 & x1 & lab & x2 & tr2 & A & B & C & D & E & F & G).
+      exists tr1, x1, lab, x2, (tr2 ++ [l]). repeat split; auto.
+      * eapply steps_snoc; eauto.
+      * rewrite G, <- app_assoc. reflexivity.
+    + rewrite Hlog in Hl. destruct l1 as [|e1 l1]; cbn [app] in Hl.
+      * injection Hl as -> <-. exists tr, s1, l, s2, []. repeat split; auto. constructor.
+      * injection Hl as -> Hl.
+        destruct (IH H0 _ _ _ Hl) as (tr1 & x1 & lab & x2 & tr2 & A & B & C & D & E & F & G).
+        exists tr1, x1, lab, x2, (tr2 ++ [l]). repeat split; auto.
+        -- eapply steps_snoc; eauto.
+        -- rewrite G, <- app_assoc. reflexivity.
+Qed.
+
+Lemma log_origin : forall c tr s, steps c init tr s -> forall l1 e l2, log s = l1 ++ e :: l2 ->
+  exists tr1 s1 lab s2 tr2,
+    steps c init tr1 s1 /\ client_ok s1 lab = true /\ step c s1 lab = Some s2 /\
+    log s1 = l2 /\ log s2 = e :: l2 /\ steps c s2 tr2 s /\ tr = tr1 ++ lab :: tr2.
+Proof. intros c tr s H. apply (log_origin_gen c init tr s H). reflexivity. Qed.
+
+Ltac log_inv Hl :=
+  first [ exfalso; exact (cons_neq _ _ _ Hl)
+        | discriminate Hl
+        | injection Hl; clear Hl; intros; subst ].
+
+Lemma origin_begin : forall c s1 lab s2 t, step c s1 lab = Some s2 -> log s2 = EvBegin t :: log s1 ->
+  exists w, lab = LWCheck w /\ wst s1 w = WGot t /\ err s1 = None.
+Proof.
+  intros c s1 lab s2 t H Hl. destruct lab; step_inv H; subst s2; unfold_sets; proj_simpl; log_inv Hl.
+  eauto.
+Qed.
+
+Lemma origin_end : forall c s1 lab s2 t ok, step c s1 lab = Some s2 -> log s2 = EvEnd t ok :: log s1 ->
+  exists w, lab = LWEnd w ok /\ wst s1 w = WRun t.
+Proof.
+  intros c s1 lab s2 t ok' H Hl. destruct lab; step_inv H; subst s2; unfold_sets; proj_simpl; log_inv Hl.
+  eauto.
+Qed.
+
+Lemma origin_result : forall c s1 lab s2 j r, step c s1 lab = Some s2 -> log s2 = EvResult j r :: log s1 ->
+  (lab = LDCheck /\ disp s1 = DGot j /\ shutdown s1 = true /\ r = RShutdown) \/
+  (lab = LDComplete /\ disp s1 = DWait j /\ sg s1 = 0 /\ r = match err s1 with None => RNil | Some t => RErr t end).
+Proof.
+  intros c s1 lab s2 j r H Hl. destruct lab; step_inv H; subst s2; unfold_sets; proj_simpl; log_inv Hl.
+  - left. auto.
+  - right. apply Nat.eqb_eq in E0. auto.
+Qed.
+
+Lemma origin_newjob : forall c s1 lab s2 j, step c s1 lab = Some s2 -> log s2 = EvNewJob j :: log s1 ->
+  lab = LNewJob /\ shutdown s1 = false /\ j = njobs s1.
+Proof.
+  intros c s1 lab s2 j H Hl. destruct lab; step_inv H; subst s2; unfold_sets; proj_simpl; log_inv Hl.
+  auto.
+Qed.
+
+(* ------------------------------------------------------------------------------------------------ *)
+(* 6. jobs are processed one at a time, in submission order                                          *)
+(* ------------------------------------------------------------------------------------------------ *)
+
+Lemma owner_later : forall c s1 s l t, Inv c s1 -> Inv c s -> log s = l ++ log s1 -> t < ntasks s1 ->
+  owner s t = owner s1 t.
+Proof.
+  intros c s1 s l t HI1 HI Hl Ht.
+  assert (Hin : In (EvGo (owner s1 t) t) (log s1)) by (apply (l_go _ _ HI1); auto).
+  assert (Hin' : In (EvGo (owner s1 t) t) (log s)) by (rewrite Hl; apply in_or_app; now right).
+  apply (l_go _ _ HI) in Hin'. tauto.
+Qed.
+
+Lemma earlier_jobs_done : forall c s j, Inv c s -> dcur (disp s) = Some j ->
+  forall j', j' < j -> exists r', In (EvResult j' r') (log s).
+Proof.
+  intros c s j HI Hd j' Hlt. destruct (i_queue _ _ HI) as (k & Hk & _ & Hlt' & _ & Hcur).
+  destruct (Hcur j Hd) as (A & _). destruct (Hlt' j' ltac:(lia)) as [Hd'|Hr]; [rewrite Hd in Hd'; injection Hd' as ->; lia|].
+  destruct (jresult (jobs s j')) as [r'|] eqn:Er; [|contradiction]. exists r'. apply (l_res _ _ HI). exact Er.
+Qed.
+
+(* results are reported in submission (= job id) order *)
+Lemma results_in_order : forall c tr s l1 j r l2, c_fixed c = true -> steps c init tr s ->
+  log s = l1 ++ EvResult j r :: l2 -> forall j', j' < j -> exists r', In (EvResult j' r') l2.
+Proof.
+  intros c tr s l1 j r l2 Hf H Hl j' Hlt.
+  destruct (log_origin _ _ _ H _ _ _ Hl) as (tr1 & s1 & lab & s2 & tr2 & A & B & C & D & E & F & G).
+  assert (HI1 : Inv c s1) by (apply (Inv_steps c init _ s1 Hf (Inv_init c) A)).
+  rewrite <- D in E. rewrite <- D.
+  apply (earlier_jobs_done c s1 j HI1); auto.
+  destruct (origin_result _ _ _ _ _ _ C E) as [(_ & Hd & _)|(_ & Hd & _)]; rewrite Hd; reflexivity.
+Qed.
+
+(* a task of job j begins only after the results of all earlier jobs were reported (and after its Go) *)
+Lemma begin_after_earlier_results : forall c tr s l1 t l2 j, c_fixed c = true -> steps c init tr s ->
+  log s = l1 ++ EvBegin t :: l2 -> In (EvGo j t) (log s) ->
+  In (EvGo j t) l2 /\ forall j', j' < j -> exists r', In (EvResult j' r') l2.
+Proof.
+  intros c tr s l1 t l2 j Hf H Hl Hg.
+  destruct (log_origin _ _ _ H _ _ _ Hl) as (tr1 & s1 & lab & s2 & tr2 & A & B & C & D & E & F & G).
+  assert (HI1 : Inv c s1) by (apply (Inv_steps c init _ s1 Hf (Inv_init c) A)).
+  assert (HI : Inv c s) by (apply (Inv_steps c init _ s Hf (Inv_init c) H)).
+  rewrite <- D in E. destruct (origin_begin _ _ _ _ _ C E) as (w & -> & Hw & He).
+  assert (Hwt : wtask (wst s1 w) = Some t) by (rewrite Hw; reflexivity).
+  destruct (i_wtask _ _ HI1 _ _ Hwt) as (Hwlt & Ht & Hph). rewrite Hw in Hph. cbn [wph] in Hph.
+  assert (Hown : owner s t = owner s1 t).
+  { apply (owner_later c s1 s (l1 ++ [EvBegin t])); auto. rewrite Hl, D, <- app_assoc. reflexivity. }
+  apply (l_go _ _ HI) in Hg. destruct Hg as (_ & Hj). rewrite Hown in Hj. subst j.
+  rewrite <- D. split; [apply (l_go _ _ HI1); auto|].
+  apply (earlier_jobs_done c s1 (owner s1 t) HI1).
+  pose proof (i_active _ _ HI1 t Ht) as Ha. rewrite Hph in Ha. specialize (Ha eq_refl).
+  destruct (disp s1); try discriminate; exact Ha.
+Qed.
+
+(* once the result of a job is reported none of its tasks begins or ends *)
+Lemma no_activity_after_result : forall c tr s l1 j r l2 t, c_fixed c = true -> steps c init tr s ->
+  log s = l1 ++ EvResult j r :: l2 -> In (EvGo j t) (log s) ->
+  ~ In (EvBegin t) l1 /\ forall ok, ~ In (EvEnd t ok) l1.
+Proof.
+  intros c tr s l1 j r l2 t Hf H Hl Hg.
+  assert (HI : Inv c s) by (apply (Inv_steps c init _ s Hf (Inv_init c) H)).
+  apply (l_go _ _ HI) in Hg. destruct Hg as (_ & Hj).
+  assert (Hkey : forall e a b w, l1 = a ++ e :: b ->
+            forall s1, Inv c s1 -> log s1 = b ++ EvResult j r :: l2 ->
+            wtask (wst s1 w) = Some t -> active (wph (wst s1 w)) = true -> False).
+  { intros e a b w Hab s1 HI1 Hlog Hwt Hact.
+    destruct (i_wtask _ _ HI1 _ _ Hwt) as (_ & Ht & Hph).
+    pose proof (i_active _ _ HI1 t Ht) as Ha. rewrite Hph in Ha. specialize (Ha Hact).
+    assert (Hown : owner s t = owner s1 t).
+    { apply (owner_later c s1 s (a ++ [e])); auto. rewrite Hl, Hab, Hlog, <- !app_assoc. reflexivity. }
+    assert (Hres : jresult (jobs s1 j) = Some r).
+    { apply (l_res _ _ HI1). rewrite Hlog. apply in_or_app. right. now left. }
+    destruct (cur_nores c s1 (owner s1 t) HI1) as (_ & Hn).
+    { destruct (disp s1); try discriminate; exact Ha. }
+    congruence. }
+  split.
+  - intros Hin. apply in_split in Hin. destruct Hin as (a & b & Hab).
+    assert (Hl' : log s = a ++ EvBegin t :: (b ++ EvResult j r :: l2)).
+    { rewrite Hl, Hab, <- app_assoc. reflexivity. }
+    destruct (log_origin _ _ _ H _ _ _ Hl') as (tr1 & s1 & lab & s2 & tr2 & A & B & C & D & E & F & G).
+    assert (HI1 : Inv c s1) by (apply (Inv_steps c init _ s1 Hf (Inv_init c) A)).
+    rewrite <- D in E. destruct (origin_begin _ _ _ _ _ C E) as (w & -> & Hw & He).
+    apply (Hkey (EvBegin t) a b w Hab s1 HI1 D); rewrite Hw; reflexivity.
+  - intros ok Hin. apply in_split in Hin. destruct Hin as (a & b & Hab).
+    assert (Hl' : log s = a ++ EvEnd t ok :: (b ++ EvResult j r :: l2)).
+    { rewrite Hl, Hab, <- app_assoc. reflexivity. }
+    destruct (log_origin _ _ _ H _ _ _ Hl') as (tr1 & s1 & lab & s2 & tr2 & A & B & C & D & E & F & G).
+    assert (HI1 : Inv c s1) by (apply (Inv_steps c init _ s1 Hf (Inv_init c) A)).
+    rewrite <- D in E. destruct (origin_end _ _ _ _ _ _ C E) as (w & -> & Hw).
+    apply (Hkey (EvEnd t ok) a b w Hab s1 HI1 D); rewrite Hw; reflexivity.
+Qed.
+
+
+(* ------------------------------------------------------------------------------------------------ *)
+(* 7. stability facts and two-point theorems (first recorded error, skipping, pending jobs at Stop)   *)
+(* ------------------------------------------------------------------------------------------------ *)
+
+Lemma res_stable : forall c s l s' j r, c_fixed c = true -> Inv c s -> step c s l = Some s' ->
+  jresult (jobs s j) = Some r -> jresult (jobs s' j) = Some r.
+Proof.
+  intros c s l s' j' r. revert c s l s'. prepd. all: intros Hr; try assumption.
+  all: try (rewrite jres_upd_same; assumption).
+  - rewrite upd_neq; auto. pose proof (res_lt _ _ _ _ HI Hr). lia.
+  - rewrite upd_neq; auto. congruence.
+  - rewrite upd_neq; auto. congruence.
+Qed.
+
+Lemma skipped_stable : forall c s l s' t, c_fixed c = true -> Inv c s -> step c s l = Some s' ->
+  tph s t = TSkipped -> tph s' t = TSkipped.
+Proof.
+  intros c s l s' x. revert c s l s'. prepf. all: intros Hp; try assumption.
+  all: rewrite upd_neq; auto; try congruence.
+  intros Hn. rewrite <- Hn, (i_new _ _ HI (ntasks s)) in Hp by lia. discriminate.
+Qed.
+
+Lemma shutdown_stable : forall c s l s', step c s l = Some s' -> shutdown s = true -> shutdown s' = true.
+Proof.
+  intros c s l s' H. destruct l; step_inv H; subst s'; unfold_sets; proj_simpl; auto; intros; discriminate.
+Qed.
+
+Lemma owner_stable : forall c s l s' t, step c s l = Some s' -> t < ntasks s ->
+  owner s' t = owner s t /\ t < ntasks s'.
+Proof.
+  intros c s l s' x H. destruct l; step_inv H; subst s'; unfold_sets; proj_simpl; auto.
+  intros Hx. rewrite upd_neq by lia. auto.
+Qed.
+
+(* the state of the first recorded error of the active job *)
+Definition err_pending (s : state) (j : jid) (t : tkid) : Prop :=
+  (err s = Some t /\ dact (disp s) = Some j /\ jresult (jobs s j) = None) \/
+  jresult (jobs s j) = Some (RErr t).
+
+Lemma err_pending_step : forall c s l s' j t, c_fixed c = true -> Inv c s -> step c s l = Some s' ->
+  err_pending s j t -> err_pending s' j t.
+Proof.
+  intros c s l s' j' x Hf HI H [(He & Hd & Hr)|Hr]; [|right; eapply res_stable; eauto].
+  revert c s l s' Hf HI H He Hd Hr. unfold err_pending. prepd. all: intros He Hd Hr.
+  all: try (left; repeat split; auto; fail).
+  all: try (rewrite ?E in Hd; cbn [dact] in Hd; discriminate).
+  all: try (left; repeat split; auto; rewrite ?jres_upd_same; auto; fail).
+  - left. repeat split; auto. jobcase; auto.
+  - left. repeat split; auto. rewrite He. destruct ok; reflexivity.
+  - right. cbn [dact] in Hd. injection Hd as <-. rewrite upd_eq. cbn [jresult].
+    rewrite He. reflexivity.
+Qed.
+
+Lemma err_pending_steps : forall c s tr s' j t, c_fixed c = true -> Inv c s -> steps c s tr s' ->
+  err_pending s j t -> err_pending s' j t.
+Proof.
+  intros c s tr s' j t Hf HI H. revert HI. induction H as [s|s tr s1 l s2 H IH Hc Hs]; intros HI Hp; auto.
+  apply (err_pending_step c s1 l s2 j t Hf); auto. eapply Inv_steps; eauto.
+Qed.
+
+(* The first failing task whose LWFinish finds w.err = nil determines the job's result: from then on the
+   only result the job can report is the error of that task. *)
+Lemma first_error_reported : forall c tr1 s1 w t s1' tr2 s2, c_fixed c = true ->
+  steps c init tr1 s1 -> wst s1 w = WRan t false -> err s1 = None ->
+  step c s1 (LWFinish w) = Some s1' -> steps c s1' tr2 s2 ->
+  (forall r, In (EvResult (owner s1 t) r) (log s2) -> r = RErr t) /\
+  (err s2 = Some t \/ In (EvResult (owner s1 t) (RErr t)) (log s2)).
+Proof.
+  intros c tr1 s1 w t s1' tr2 s2 Hf H1 Hw He Hs H2.
+  assert (HI1 : Inv c s1) by (apply (Inv_steps c init _ s1 Hf (Inv_init c) H1)).
+  assert (HI1' : Inv c s1') by (eapply Inv_step; eauto).
+  assert (HI2 : Inv c s2) by (eapply Inv_steps; eauto).
+  assert (Hwt : wtask (wst s1 w) = Some t) by (rewrite Hw; reflexivity).
+  destruct (i_wtask _ _ HI1 _ _ Hwt) as (_ & Ht & Hph). rewrite Hw in Hph. cbn [wph] in Hph.
+  pose proof (i_active _ _ HI1 t Ht) as Ha. rewrite Hph in Ha. specialize (Ha eq_refl).
+  assert (Hp : err_pending s1' (owner s1 t) t).
+  { left. cbn [step] in Hs. rewrite Hw in Hs. injection Hs as <-. unfold_sets; proj_simpl.
+    rewrite He. repeat split; auto.
+    destruct (cur_nores c s1 (owner s1 t) HI1) as (_ & Hn); auto.
+    destruct (disp s1); try discriminate; exact Ha. }
+  pose proof (err_pending_steps c s1' tr2 s2 _ _ Hf HI1' H2 Hp) as [(A & B & C)|A].
+  - split; [|now left]. intros r Hr. apply (l_res _ _ HI2) in Hr. congruence.
+  - split; [|right; apply (l_res _ _ HI2); exact A]. intros r Hr. apply (l_res _ _ HI2) in Hr. congruence.
+Qed.
+
+Lemma skipped_steps : forall c s tr s' t, c_fixed c = true -> Inv c s -> steps c s tr s' ->
+  tph s t = TSkipped -> Inv c s' /\ tph s' t = TSkipped.
+Proof.
+  intros c s tr s' t Hf HI H. revert HI. induction H as [s|s tr s3 l s4 H IH Hc Hs']; intros HI Hsk; auto.
+  destruct (IH HI Hsk) as (HI3 & Hsk3). split; [eapply Inv_step; eauto|eapply skipped_stable; eauto].
+Qed.
+
+(* a task whose LWCheck finds the error set is skipped: it never begins *)
+Lemma skipped_never_begins : forall c tr1 s1 w t t0 s1' tr2 s2, c_fixed c = true ->
+  steps c init tr1 s1 -> wst s1 w = WGot t -> err s1 = Some t0 ->
+  step c s1 (LWCheck w) = Some s1' -> steps c s1' tr2 s2 ->
+  ~ In (EvBegin t) (log s2) /\ wst s1' w = WIdle.
+Proof.
+  intros c tr1 s1 w t t0 s1' tr2 s2 Hf H1 Hw He Hs H2.
+  assert (HI1 : Inv c s1) by (apply (Inv_steps c init _ s1 Hf (Inv_init c) H1)).
+  assert (HI1' : Inv c s1') by (eapply Inv_step; eauto).
+  assert (Hsk : tph s1' t = TSkipped /\ wst s1' w = WIdle).
+  { cbn [step] in Hs. rewrite Hw, He, Hf in Hs. injection Hs as <-. unfold_sets; proj_simpl.
+    rewrite !upd_eq. auto. }
+  destruct Hsk as (Hsk & Hidle). split; auto.
+  assert (Hsk2 : Inv c s2 /\ tph s2 t = TSkipped).
+  { eapply skipped_steps; eauto. }
+  destruct Hsk2 as (HI2 & Hsk2). rewrite (begin_in_iff _ _ _ HI2), Hsk2. discriminate.
+Qed.
+
+(* ---- Stop ---------------------------------------------------------------------------------------- *)
+
+Definition shut_pending (s : state) (j : jid) : Prop :=
+  shutdown s = true /\ (In j (queue s) \/ disp s = DGot j \/ jresult (jobs s j) = Some RShutdown).
+
+Lemma shut_pending_step : forall c s l s' j, c_fixed c = true -> Inv c s -> step c s l = Some s' ->
+  shut_pending s j -> shut_pending s' j.
+Proof.
+  intros c s l s' j' Hf HI H (Hsh & Hp). split; [eapply shutdown_stable; eauto|].
+  destruct Hp as [Hp|[Hp|Hp]]; [| |right; right; eapply res_stable; eauto].
+  - revert c s l s' Hf HI H Hsh Hp. prepd. all: intros Hsh Hp. all: try (left; assumption).
+    all: try discriminate.
+    all: try (destruct Hp as [Hp|Hp]; [right; left; congruence|left; assumption]).
+    all: try (destruct Hp; fail).
+  - revert c s l s' Hf HI H Hsh Hp. prepd. all: intros Hsh Hp. all: try (right; left; assumption).
+    all: try congruence.
+    right. right. injection Hp as <-. rewrite upd_eq. reflexivity.
+Qed.
+
+Lemma shut_pending_steps : forall c s tr s' j, c_fixed c = true -> Inv c s -> steps c s tr s' ->
+  shut_pending s j -> shut_pending s' j.
+Proof.
+  intros c s tr s' j Hf HI H. revert HI. induction H as [s|s tr s1 l s2 H IH Hc Hs]; intros HI Hp; auto.
+  apply (shut_pending_step c s1 l s2 j Hf); auto. eapply Inv_steps; eauto.
+Qed.
+
+(* a job that the dispatcher had not started when shouldShutdown was set reports shutdown, and none of
+   its tasks ever begins *)
+Lemma stop_pending_jobs : forall c tr1 s1 j tr2 s2, c_fixed c = true ->
+  steps c init tr1 s1 -> In EvStop (log s1) -> (In j (queue s1) \/ disp s1 = DGot j) ->
+  steps c s1 tr2 s2 ->
+  (forall r, In (EvResult j r) (log s2) -> r = RShutdown) /\
+  (forall t, In (EvGo j t) (log s2) -> ~ In (EvBegin t) (log s2)).
+Proof.
+  intros c tr1 s1 j tr2 s2 Hf H1 Hst Hq H2.
+  assert (HI1 : Inv c s1) by (apply (Inv_steps c init _ s1 Hf (Inv_init c) H1)).
+  assert (HI2 : Inv c s2) by (eapply Inv_steps; eauto).
+  assert (Hp : shut_pending s1 j).
+  { split; [apply (l_stop _ _ HI1); auto|]. tauto. }
+  pose proof (shut_pending_steps c s1 tr2 s2 j Hf HI1 H2 Hp) as (Hsh & Hp2).
+  assert (Hres : jresult (jobs s2 j) = None \/ jresult (jobs s2 j) = Some RShutdown).
+  { destruct Hp2 as [Hin|[Hd|Hr]]; auto; left.
+    - destruct (i_queue _ _ HI2) as (k & Hk & Hqs & _ & Hge & _). apply Hge.
+      rewrite Hqs in Hin. apply in_seq in Hin. lia.
+    - apply (cur_nores c s2 j HI2). rewrite Hd. reflexivity. }
+  split.
+  - intros r Hr. apply (l_res _ _ HI2) in Hr. destruct Hres; congruence.
+  - intros t Hg. apply (l_go _ _ HI2) in Hg. destruct Hg as (Ht & Ho).
+    rewrite (begin_in_iff _ _ _ HI2).
+    assert (Hqd : tph s2 t = TQueued).
+    { destruct Hres as [Hn|Hr]; [|apply (i_rshut _ _ HI2 _ Hr); auto].
+      apply (pending_queued c s2 j t HI2); auto.
+      intros Hd. destruct (cur_nores c s2 j HI2) as (_ & Hn'); [destruct (disp s2); try discriminate; exact Hd|].
+      destruct Hp2 as [Hin|[Hd'|Hr]]; try congruence.
+      - destruct (i_queue _ _ HI2) as (k & Hk & Hqs & _ & _ & Hcur).
+        rewrite Hqs in Hin. apply in_seq in Hin.
+        destruct (Hcur j) as (A & _); [destruct (disp s2); try discriminate; exact Hd|]. lia.
+      - rewrite Hd' in Hd. discriminate. }
+    rewrite Hqd. discriminate.
+Qed.
+
+(* after Stop began NewJob is refused; equivalently no job is accepted after the EvStop event *)
+Lemma newjob_refused_after_stop : forall c tr s s', c_fixed c = true -> steps c init tr s ->
+  In EvStop (log s) -> step c s LNewJob = Some s' ->
+  log s' = EvRefused :: log s /\ njobs s' = njobs s /\ queue s' = queue s.
+Proof.
+  intros c tr s s' Hf H Hst Hs.
+  assert (HI : Inv c s) by (apply (Inv_steps c init _ s Hf (Inv_init c) H)).
+  apply (l_stop _ _ HI) in Hst. cbn [step] in Hs. rewrite Hst in Hs. injection Hs as <-.
+  unfold_sets; proj_simpl. auto.
+Qed.
+
+Lemma no_accept_after_stop : forall c tr s l1 j l2, c_fixed c = true -> steps c init tr s ->
+  log s = l1 ++ EvNewJob j :: l2 -> ~ In EvStop l2.
+Proof.
+  intros c tr s l1 j l2 Hf H Hl.
+  destruct (log_origin _ _ _ H _ _ _ Hl) as (tr1 & s1 & lab & s2 & tr2 & A & B & C & D & E & F & G).
+  assert (HI1 : Inv c s1) by (apply (Inv_steps c init _ s1 Hf (Inv_init c) A)).
+  rewrite <- D in E. destruct (origin_newjob _ _ _ _ _ C E) as (_ & Hsh & _).
+  rewrite <- D, (l_stop _ _ HI1), Hsh. discriminate.
+Qed.
+
+Lemma all_exited_of_cnt : forall c s, Inv c s -> cnt (fun w => wexited (wst s w)) (c_nw c) = c_nw c ->
+  forall w, w < c_nw c -> wst s w = WExited.
+Proof.
+  intros c s HI Hc w Hw. pose proof (cnt_full _ _ Hc w Hw) as He. cbn beta in He.
+  destruct (wst s w); try discriminate; reflexivity.
+Qed.
+
+Lemma all_results_when_drained : forall c s, Inv c s -> queue s = [] -> dcur (disp s) = None ->
+  forall j, j < njobs s -> exists r, In (EvResult j r) (log s).
+Proof.
+  intros c s HI Hq Hd j Hj. destruct (i_queue _ _ HI) as (k & Hk & Hqs & Hlt & _ & _).
+  rewrite Hq in Hqs. assert (k = njobs s).
+  { destruct (njobs s - k) eqn:En; [lia|discriminate]. }
+  subst k. destruct (Hlt j Hj) as [Hc|Hr]; [congruence|].
+  destruct (jresult (jobs s j)) as [r|] eqn:Er; [|contradiction]. exists r. apply (l_res _ _ HI). exact Er.
+Qed.
+
+(* Stop returns only after every worker exited (and every accepted job has reported a result) *)
+Lemma stop_returns_after_workers_exit : forall c tr s, c_fixed c = true -> steps c init tr s ->
+  (In EvStopRet (log s) ->
+     (forall w, w < c_nw c -> wst s w = WExited) /\ disp s = DDone /\
+     (forall j, j < njobs s -> exists r, In (EvResult j r) (log s))) /\
+  (forall s', step c s LStopRet = Some s' -> forall w, w < c_nw c -> wst s w = WExited).
+Proof.
+  intros c tr s Hf H. assert (HI : Inv c s) by (apply (Inv_steps c init _ s Hf (Inv_init c) H)).
+  split.
+  - intros Hr. apply (l_stopret _ _ HI) in Hr.
+    assert (Hd : disp s = DDone).
+    { apply (s_trig _ _ HI). apply (s_stoptrig _ _ HI). rewrite (s_stopclosed _ _ HI), Hr. reflexivity. }
+    split; [apply all_exited_of_cnt; auto; apply (s_ret _ _ HI Hr)|]. split; auto.
+    destruct (s_final _ _ HI (or_intror Hd)) as (_ & Hq).
+    apply (all_results_when_drained c s HI Hq). rewrite Hd. reflexivity.
+  - intros s' Hs. cbn [step] in Hs. destruct (stop s) eqn:Es; try discriminate.
+    destruct (Nat.eqb_spec k (c_nw c)) as [->|]; [|discriminate].
+    apply all_exited_of_cnt; auto. symmetry. apply (s_recv _ _ HI _ Es).
+Qed.
+
+
+(* ------------------------------------------------------------------------------------------------ *)
+(* 8. progress                                                                                       *)
+(* ------------------------------------------------------------------------------------------------ *)
+
+Definition can_move (c : cfg) (s : state) : Prop :=
+  exists l s', internal l = true /\ step c s l = Some s'.
+
+Lemma busy_worker_moves : forall c s w t, wtask (wst s w) = Some t -> can_move c s.
+Proof.
+  intros c s w t Hw. destruct (wst s w) as [|t'|t'|t' ok|] eqn:Ew; try discriminate.
+  - exists (LWCheck w). cbn [step]. rewrite Ew. destruct (err s); eexists; split; reflexivity.
+  - exists (LWEnd w (negb (c_fail c t'))). cbn [step]. rewrite Ew, eqb_reflx. eexists; split; reflexivity.
+  - exists (LWFinish w). cbn [step]. rewrite Ew. eexists; split; reflexivity.
+Qed.
+
+Lemma no_deadlock_inv : forall c s, c_fixed c = true -> c_nw c >= 1 -> Inv c s ->
+  can_move c s \/
+  (exists j, disp s = DLoop j /\ j < njobs s /\ jclosed (jobs s j) = false /\ jtasks (jobs s j) = []) \/
+  ((forall j, j < njobs s -> exists r, In (EvResult j r) (log s)) /\ (stop s = SNone \/ stop s = SRet)).
+Proof.
+  intros c s Hf Hnw HI. destruct (disp s) as [|j|j|j t|j| |] eqn:Ed.
+  - (* DIdle *)
+    destruct (queue s) as [|j q] eqn:Eq.
+    + destruct (qclosed s) eqn:Ec.
+      * left. exists LDRecv. cbn [step]. rewrite Ed, Eq, Ec. eexists; split; reflexivity.
+      * pose proof (s_qclosed _ _ HI) as Hq. rewrite Ec in Hq.
+        destruct (stop s) eqn:Es; try discriminate.
+        -- right. right. split; auto. apply (all_results_when_drained c s HI Eq). rewrite Ed. reflexivity.
+        -- left. exists LStopClose. cbn [step]. rewrite Es. eexists; split; reflexivity.
+    + left. exists LDRecv. cbn [step]. rewrite Ed, Eq. eexists; split; reflexivity.
+  - (* DGot *) left. exists LDCheck. cbn [step]. rewrite Ed. destruct (shutdown s); eexists; split; reflexivity.
+  - (* DLoop *)
+    destruct (jtasks (jobs s j)) as [|t rest] eqn:Et.
+    + destruct (jclosed (jobs s j)) eqn:Ec.
+      * left. exists LDTake. cbn [step]. rewrite Ed, Et, Ec. eexists; split; reflexivity.
+      * right. left. exists j. repeat split; auto. apply (cur_nores c s j HI). rewrite Ed. reflexivity.
+    + left. exists LDTake. cbn [step]. rewrite Ed, Et. eexists; split; reflexivity.
+  - (* DSend: worker 0 is idle (handoff) or busy (its own next label) *)
+    left. destruct (wst s 0) as [|t'|t'|t' ok|] eqn:Ew.
+    + exists (LHandoff 0). cbn [step]. rewrite Ed, Ew.
+      assert (Hlt : (0 <? c_nw c) = true) by (apply Nat.ltb_lt; lia). rewrite Hlt.
+      eexists; split; reflexivity.
+    + apply (busy_worker_moves c s 0 t'). rewrite Ew. reflexivity.
+    + apply (busy_worker_moves c s 0 t'). rewrite Ew. reflexivity.
+    + apply (busy_worker_moves c s 0 t'). rewrite Ew. reflexivity.
+    + exfalso. destruct (s_exited _ _ HI _ Ew) as (Hsc & _).
+      apply (s_stoptrig _ _ HI) in Hsc. apply (s_trig _ _ HI) in Hsc. congruence.
+  - (* DWait *)
+    left. destruct (Nat.eqb (sg s) 0) eqn:Eg.
+    + exists LDComplete. cbn [step]. rewrite Ed, Eg. eexists; split; reflexivity.
+    + apply Nat.eqb_neq in Eg. rewrite (i_sg _ _ HI) in Eg.
+      destruct (cnt_pos (fun t => active (tph s t)) (ntasks s)) as (t & Ht & Ha); [lia|].
+      cbn beta in Ha.
+      assert (Hw : exists w, wtask (wst s w) = Some t).
+      { apply (i_tw _ _ HI t Ht). destruct (tph s t) eqn:Ep; try discriminate; eauto.
+        pose proof (i_held _ _ HI t Ht Ep). congruence. }
+      destruct Hw as (w & Hw). apply (busy_worker_moves c s w t Hw).
+  - (* DFinal *) left. exists LDFin. cbn [step]. rewrite Ed. eexists; split; reflexivity.
+  - (* DDone *)
+    destruct (s_final _ _ HI (or_intror Ed)) as (Hqc & Hq).
+    assert (Hres : forall j, j < njobs s -> exists r, In (EvResult j r) (log s)).
+    { apply (all_results_when_drained c s HI Hq). rewrite Ed. reflexivity. }
+    pose proof (s_qclosed _ _ HI) as Hac. rewrite Hqc in Hac.
+    destruct (stop s) as [| | |k|] eqn:Es; try discriminate.
+    + left. exists LStopAck. cbn [step]. rewrite Es.
+      assert (Ht : triggered s = true) by (apply (s_trig _ _ HI); exact Ed). rewrite Ht.
+      eexists; split; reflexivity.
+    + destruct (Nat.eqb k (c_nw c)) eqn:Ek.
+      * left. exists LStopRet. cbn [step]. rewrite Es, Ek. eexists; split; reflexivity.
+      * left. apply Nat.eqb_neq in Ek. pose proof (s_recv _ _ HI _ Es) as Hk.
+        pose proof (cnt_le (fun w => wexited (wst s w)) (c_nw c)) as Hle.
+        destruct (cnt_notfull (fun w => wexited (wst s w)) (c_nw c)) as (w & Hw & Hne); [lia|].
+        cbn beta in Hne. destruct (wst s w) as [|t'|t'|t' ok|] eqn:Ew; try discriminate.
+        -- exists (LWStop w). cbn [step]. rewrite Es, Ew.
+           assert (H1 : (w <? c_nw c) = true) by (apply Nat.ltb_lt; lia).
+           assert (H2 : stopclosed s = true) by (rewrite (s_stopclosed _ _ HI), Es; reflexivity).
+           assert (H3 : (k <? c_nw c) = true) by (apply Nat.ltb_lt; lia).
+           rewrite H1, H2, H3. eexists; split; reflexivity.
+        -- apply (busy_worker_moves c s w t'). rewrite Ew. reflexivity.
+        -- apply (busy_worker_moves c s w t'). rewrite Ew. reflexivity.
+        -- apply (busy_worker_moves c s w t'). rewrite Ew. reflexivity.
+    + right. right. auto.
+Qed.
+
+Lemma no_deadlock : forall c tr s, c_fixed c = true -> c_nw c >= 1 -> steps c init tr s ->
+  can_move c s \/
+  (exists j, disp s = DLoop j /\ j < njobs s /\ jclosed (jobs s j) = false /\ jtasks (jobs s j) = []) \/
+  ((forall j, j < njobs s -> exists r, In (EvResult j r) (log s)) /\ (stop s = SNone \/ stop s = SRet)).
+Proof.
+  intros c tr s Hf Hnw H. apply no_deadlock_inv; auto.
+  apply (Inv_steps c init _ s Hf (Inv_init c) H).
+Qed.
+
+(* in a state where the pool cannot move, every job all of whose predecessors (and itself) were closed by
+   the client has its result; if moreover all jobs are closed and Stop was called, Stop has returned *)
+Lemma quiescent_complete : forall c tr s, c_fixed c = true -> c_nw c >= 1 -> steps c init tr s ->
+  ~ can_move c s ->
+  (forall j, j < njobs s -> (forall j', j' <= j -> jclosed (jobs s j') = true) ->
+             exists r, In (EvResult j r) (log s)) /\
+  ((forall j, j < njobs s -> jclosed (jobs s j) = true) -> In EvStop (log s) -> In EvStopRet (log s)).
+Proof.
+  intros c tr s Hf Hnw H Hq.
+  assert (HI : Inv c s) by (apply (Inv_steps c init _ s Hf (Inv_init c) H)).
+  destruct (no_deadlock c tr s Hf Hnw H) as [Hm|[(j0 & Hd & Hj0 & Hop & _)|(Hres & Hst)]]; [contradiction| |].
+  - split.
+    + intros j Hj Hcl. destruct (Nat.lt_ge_cases j j0) as [Hlt|Hge].
+      * apply (earlier_jobs_done c s j0 HI); auto. rewrite Hd. reflexivity.
+      * rewrite (Hcl j0 Hge) in Hop. discriminate.
+    + intros Hcl. rewrite (Hcl j0 Hj0) in Hop. discriminate.
+  - split; [auto|]. intros _ Hs. apply (l_stopret _ _ HI). destruct Hst as [Hst|Hst]; auto.
+    apply (l_stop _ _ HI) in Hs. rewrite (s_shutdown _ _ HI), Hst in Hs. discriminate.
+Qed.
+
+(* ---- the code before fix commit 0eb992d ([c_fixed = false]): a worker that sees the job error exits;
+   with one worker the next job is stuck for ever ---- *)
+Definition pin_c : cfg := mkC 1 4 (fun t => Nat.eqb t 0) false.
+Definition pin_tr : list label :=
+  [LNewJob; LGo 0; LGo 0; LDone 0; LNewJob; LGo 1; LDone 1;
+   LDRecv; LDCheck; LDTake; LHandoff 0; LWCheck 0; LWEnd 0 false; LWFinish 0;
+   LDTake; LHandoff 0; LWCheck 0; LDTake; LDComplete;
+   LDRecv; LDCheck; LDTake].
+Definition pin_s : state := match run_labels pin_c init pin_tr with Some s => s | None => init end.
+
+Lemma pin_steps : steps pin_c init pin_tr pin_s.
+Proof.
+  apply run_labels_steps. unfold pin_s.
+  destruct (run_labels pin_c init pin_tr) eqn:E; [reflexivity|]. vm_compute in E. discriminate.
+Qed.
+
+Lemma pin_stuck : forall l, internal l = true -> step pin_c pin_s l = None.
+Proof.
+  intros l Hi. destruct l; try discriminate Hi; try (vm_compute; reflexivity).
+  all: destruct w as [|w]; vm_compute; reflexivity.
+Qed.
+
+Lemma pinned_deadlock : exists c tr s j,
+  c_fixed c = false /\ c_nw c >= 1 /\ steps c init tr s /\
+  (forall j', j' < njobs s -> jclosed (jobs s j') = true) /\
+  j < njobs s /\ jresult (jobs s j) = None /\ (forall r, ~ In (EvResult j r) (log s)) /\
+  forall l, internal l = true -> step c s l = None.
+Proof.
+  exists pin_c, pin_tr, pin_s, 1. split; [reflexivity|]. split; [cbn; lia|]. split; [exact pin_steps|].
+  split; [|split; [vm_compute; lia|split; [vm_compute; reflexivity|split; [|exact pin_stuck]]]].
+  - intros j' Hj'. assert (Hn : njobs pin_s = 2) by (vm_compute; reflexivity). rewrite Hn in Hj'.
+    destruct j' as [|[|j']]; [vm_compute; reflexivity|vm_compute; reflexivity|lia].
+  - intros r. vm_compute. intuition discriminate.
+Qed.
+
+(* ------------------------------------------------------------------------------------------------ *)
+(* 9. the serial pool                                                                                *)
+(* ------------------------------------------------------------------------------------------------ *)
+
+(* index of the first failing task *)
+Fixpoint first_fail (fails : list bool) : option nat :=
+  match fails with
+  | [] => None
+  | f :: rest => if f then Some 0 else option_map S (first_fail rest)
+  end.
+
+Lemma serial_job_failed : forall fails x i, serial_job fails (Some x) i = ([], Some x).
+Proof. induction fails as [|f rest IH]; intros x i; cbn [serial_job]; auto. Qed.
+
+Lemma serial_job_spec : forall fails i,
+  serial_job fails None i =
+  match first_fail fails with
+  | None => (seq i (length fails), None)
+  | Some k => (seq i (S k), Some (i + k))
+  end.
+Proof.
+  induction fails as [|f rest IH]; intros i; cbn [serial_job first_fail length seq]; auto.
+  destruct f.
+  - rewrite serial_job_failed. cbn [seq]. rewrite Nat.add_0_r. reflexivity.
+  - rewrite IH. destruct (first_fail rest) as [k|]; cbn [option_map seq]; [|reflexivity].
+    rewrite Nat.add_succ_comm. reflexivity.
+Qed.
+
+Lemma first_fail_some : forall fails k, first_fail fails = Some k ->
+  k < length fails /\ nth k fails false = true /\ forall i, i < k -> nth i fails false = false.
+Proof.
+  induction fails as [|f rest IH]; intros k H; cbn [first_fail] in H; [discriminate|].
+  destruct f.
+  - injection H as <-. cbn. repeat split; auto; [lia|]. intros i Hi; lia.
+  - destruct (first_fail rest) as [k'|] eqn:E; [|discriminate]. injection H as <-.
+    destruct (IH k' eq_refl) as (A & B & C). cbn [length nth]. repeat split; auto; [lia|].
+    intros [|i] Hi; [reflexivity|]. apply C. lia.
+Qed.
+
+Lemma first_fail_none : forall fails, first_fail fails = None -> forall i, nth i fails false = false.
+Proof.
+  induction fails as [|f rest IH]; intros H i; [destruct i; reflexivity|]. cbn [first_fail] in H.
+  destruct f; [discriminate|]. destruct (first_fail rest) eqn:E; [discriminate|].
+  destruct i; [reflexivity|]. cbn [nth]. apply IH. reflexivity.
+Qed.
+
+(* the serial job runs its tasks in order, stops at the first failure and reports it *)
+Lemma serial_spec : forall fails ran r, serial_job fails None 0 = (ran, r) ->
+  (forall k, r = Some k ->
+     ran = seq 0 (S k) /\ k < length fails /\ nth k fails false = true /\
+     forall i, i < k -> nth i fails false = false) /\
+  (r = None -> ran = seq 0 (length fails) /\ forall i, nth i fails false = false) /\
+  (r <> None <-> exists i, In i ran /\ nth i fails false = true).
+Proof.
+  intros fails ran r H. rewrite serial_job_spec in H.
+  destruct (first_fail fails) as [k|] eqn:E; injection H as <- <-.
+  - destruct (first_fail_some _ _ E) as (A & B & C). split; [|split].
+    + intros k' Hk. injection Hk as <-. cbn [Nat.add]. auto.
+    + discriminate.
+    + split; [|discriminate]. intros _. exists k. split; auto. apply (proj2 (in_seq (S k) 0 k)). lia.
+  - pose proof (first_fail_none _ E) as Hn. split; [|split].
+    + discriminate.
+    + auto.
+    + split; [congruence|]. intros (i & _ & Hi). rewrite Hn in Hi. discriminate.
 Qed.
